@@ -377,8 +377,27 @@ MANIFEST_ID_SETS = {
 EDGE_LENGTHS = (124, 125, 126)     # 125 samples at 1000 Hz = 0.125 s, exact in float32 and float64
 
 
-def utterances(setname, comp_name, seed, tool=None):
-    """-> list of (utt id, int16 array (S,) or (C, S), rate, note)"""
+QUIET_PEAK = 1e-4     # peak amplitude of the quiet utterance (a +-1-normalised float recording at -80 dB)
+
+
+def quiet_utterances(seed, L, k0, tool, container, prefix):
+    """value-dependent paths (the floor of the logarithm, divisions by an energy): digital silence, zero
+    padding before / after the signal and - where the container holds floating-point samples (array
+    containers of the torch tool) - a float64 utterance of peak amplitude 1e-4"""
+    n = 3 * L + 5
+    body = samples(seed, L + 3, k0)
+    pad = np.zeros(2 * L, np.int16)
+    out = [(prefix + "z", np.zeros(n, np.int16), RATE, "silent"),
+           (prefix + "l", np.concatenate([pad, body]), RATE, "silent"),
+           (prefix + "t", np.concatenate([body, pad]), RATE, "silent")]
+    if tool == "torch" and container in ARRAY_CONTAINERS:
+        x = samples(seed, n, k0 + 1).astype(np.float64)
+        out.append((prefix + "q", x * (QUIET_PEAK / max(1.0, float(np.max(np.abs(x))))), RATE, "quiet"))
+    return out
+
+
+def utterances(setname, comp_name, seed, tool=None, container=None):
+    """-> list of (utt id, int16 array (S,) or (C, S) [the quiet utterance: float64 (S,)], rate, note)"""
     c = COMPUTERS.get(comp_name)
     L = c.get("L", 6) if c else 6
     short = max(L // 2, 1) if (c and c["kind"] == "stft") else 2
@@ -398,7 +417,7 @@ def utterances(setname, comp_name, seed, tool=None):
             if tool == "torch" and c and c["kind"] == "stft" and L // 2 + 1 <= n < L:
                 continue
             out.append(("n%02d" % n, samples(seed, n, 50 + n), RATE, "normal" if n >= L else "short"))
-        return out
+        return out + quiet_utterances(seed, L, 130, tool, container, "z")
     if setname == "long":
         # sig.signal has a linear trend that would saturate int16 on a long signal: removed here
         return [("g%d" % n, np.clip(np.round((sig.signal(seed, n, offset=170 + k) - 1e-3 * np.arange(n)) * 1000.0),
@@ -421,6 +440,7 @@ def utterances(setname, comp_name, seed, tool=None):
              ("ub", samples(seed, 2 * L + 2, 1), RATE, "normal"),
              ("us", samples(seed, short, 2), RATE, "short"),
              ("uo", samples(seed, 1, 3), RATE, "one")]
+        u += quiet_utterances(seed, L, 14, tool, container, "u")
         if setname == "rate":
             u.insert(1, ("ur", samples(seed, 3 * L + 1, 4), 2 * RATE, "rate"))
         return u
@@ -585,7 +605,7 @@ def run_case(case, seed, keep=None):
     setname, container, syntax = case["set"], case["container"], case["syntax"]
     _ensure_custom()
     comp = None if comp_name == "none" else cfg.make_computer(COMPUTERS[comp_name])
-    utts = utterances(setname, comp_name, seed, tool)
+    utts = utterances(setname, comp_name, seed, tool, container)
     channel = {"ch0": 0, "ch1": 1}.get(setname, -1)
     min_dur_text = case.get("min_dur", "0.0015" if setname == "mindur" else None)
     min_dur = None if min_dur_text is None else float(min_dur_text)
